@@ -275,4 +275,11 @@ pub fn possible_intersection<F>(""")]),
     M('walk-exit-exterior-only', ['C04', 'C02'], [(CE, "            if result_events[pos as usize].point == initial {\n                break;\n            }\n        }", "            if contour.is_exterior() && result_events[pos as usize].point == initial {\n                break;\n            }\n        }")], {'C04': 'T-walk'}),
     M('walk-exit-never-early', ['C04'], [(CE, "            if result_events[pos as usize].point == initial {\n                break;\n            }\n        }", "            if result_events[pos as usize].point == initial && false {\n                break;\n            }\n        }")], {'C04': 'T-walk'}),
     B('walk-exit-ne-form', ['C04', 'C02'], [(CE, "            if result_events[pos as usize].point == initial {\n                break;\n            }\n        }", "            if result_events[pos as usize].point != initial {\n                continue;\n            }\n            break;\n        }")]),
+    # ---- in-order preservation (M-inorder)
+    M('remove-join-without-splay', ['C17'], [(TR, "                splay(key, &mut node, &self.comparator);\n                node.right = right;", "                node.right = right;")], {'C17': 'M-inorder'}),
+    M('insert-less-old-root-left', ['C17'], [(TR, "                        root.right = Some(prev);", "                        root.left = Some(prev);")], {'C17': 'M-inorder'}),
+    M('zigzig-no-subtree-handover', ['C17'], [(TR, "                        mem::swap(&mut node.left, &mut left.right);\n", "")], {'C17': 'M-inorder'}),
+    M('intoiter-next-drops-inner-subtree', ['C17'], [(TR, "                    cur.left = node.pop_right();\n", "")], {'C17': 'M-inorder'}),
+    M('splay-link-slot-outer-end', ['C17'], [(TR, "                    r = &mut tmp.as_mut().unwrap().left;", "                    r = &mut tmp.as_mut().unwrap().right;")], {'C17': 'M-inorder'}),
+    B('insert-less-bind-new-first', ['C17'], [(TR, "                        let prev = mem::replace(root, new);\n                        root.right = Some(prev);", "                        let old_root = mem::replace(root, new);\n                        let slot = &mut root.right;\n                        *slot = Some(old_root);")]),
 ]
